@@ -862,6 +862,10 @@ def run(ctx: Ctx, rep: Report, tier: str) -> None:
     every_reference_expanded(ctx, rep)
     sections_keep_every_line(ctx, rep)
     bindings_booked_by_name(ctx, rep)
+    # R07.16 ... and the records of two ACLs are two objects (C17 R17.7: no mutable value shared through dict.fromkeys)
+    from .c17 import no_shared_fromkeys_value
+
+    no_shared_fromkeys_value(ctx, rep, rid="R07.16")
     only_commands_are_bindings(ctx, rep)
     # R07.10 a member reaches the ACE through its rendered line: the kind tests single out exactly the network the
     # rendered keyword stands for (C01's classification guards); R07.11 entries are stored in line order (C12 R12.4)
